@@ -1,7 +1,7 @@
 (* C14 — spend policy verification matches the policy's meaning and address commitment.
    [sigok]/[preok] are arbitrary oracles for ed25519 verification and the SHA-256 hash lock. *)
-From Coq Require Import List NArith ZArith Bool.
-From Sia Require Import Prim.Result Prim.Tok Policy.Model Policy.Proofs.
+From Coq Require Import List NArith ZArith Bool Lia.
+From Sia Require Import Prim.Result Prim.Tok Policy.Model Policy.Proofs Policy.Sat.
 Import ListNotations.
 
 (* replacing any subset of a threshold's sub-policies by their opaque forms never changes the address *)
@@ -94,3 +94,39 @@ Example C14_nonvacuous :
   verify_policy 10 100 (fun k s => Model.bytes_eqb k s) (fun _ _ => false) [1%N] [2%N]
     (PThresh 1 [PPK [7%N]; POpaque [9%N]; POpaque [8%N]]) [[7%N]] [] = Ok tt.
 Proof. vm_compute. reflexivity. Qed.
+
+(* ---- the biconditional: Verify accepts exactly when the declarative meaning holds ---- *)
+(* [sat p sg pr sg' pr']: p holds, consuming signatures and preimages from the front in order (Policy/Sat.v: time and
+   height locks compare as specified, a key leaf takes one valid signature, a hash leaf one correct preimage, a
+   threshold has exactly n revealed children that hold and all others opaque and no unlock-conditions child, legacy
+   unlock conditions take the required number of listed keys in order); [cost] is the evaluator's complexity charge *)
+Theorem C14_verify_iff_meaning : forall height median sigok preok se sd p sg pr,
+  verify_policy height median sigok preok se sd p sg pr = Ok tt <->
+  (sat height median sigok preok se sd p sg pr [] [] /\ (cost p <= 1024)%N).
+Proof. exact verify_policy_iff. Qed.
+Print Assumptions C14_verify_iff_meaning.
+
+(* the same for every sub-evaluation: what is left of the witnesses and how much budget is spent *)
+Theorem C14_verify_state_iff : forall height median sigok preok se sd p s s', (total s <= 1024)%N ->
+  verify height median sigok preok se sd p s = Ok s' <->
+  (sat height median sigok preok se sd p (sigs s) (pres s) (sigs s') (pres s') /\
+   (total s + cost p <= 1024)%N /\ total s' = (total s + cost p)%N).
+Proof. exact verify_iff. Qed.
+Print Assumptions C14_verify_state_iff.
+
+(* legacy unlock conditions: the walk succeeds exactly when [req] listed keys, in order, each take the next signature *)
+Theorem C14_unlock_conditions_iff : forall sigok se sd keys req sg sg',
+  uc_walk sigok se sd keys req sg = Ok (0%N, sg') <-> uc_match sigok se sd keys req sg sg'.
+Proof. intros sigok se sd. exact (uc_walk_iff 0%N sigok sigok se sd). Qed.
+Print Assumptions C14_unlock_conditions_iff.
+
+(* the meaning is not vacuous: 2-of-3 with one branch opaque, a key leaf and a hash leaf *)
+Example C14_meaning_nonvacuous : forall k h s x a, 
+  sat 10%N 5%Z (fun _ _ => true) (fun _ _ => true) [] [] (PThresh 2 [PPK k; POpaque a; PHash h]) [s] [x] [] [].
+Proof.
+  intros. apply sat_thresh; [cbn; lia|].
+  apply (sc_reveal 10%N 5%Z (fun _ _ => true) (fun _ _ => true) [] [] (PPK k) _ 1%N [s] [x] [] [x] [] []); try reflexivity; [constructor; reflexivity|].
+  apply sc_opaque.
+  apply (sc_reveal 10%N 5%Z (fun _ _ => true) (fun _ _ => true) [] [] (PHash h) _ 0%N [] [x] [] [] [] []); try reflexivity; [constructor; reflexivity|].
+  constructor.
+Qed.
